@@ -39,12 +39,14 @@ func runC19(p *Prog, r *Report) {
 	r.MinInstances["C19.R3"] = 5
 	r.MinInstances["C19.R4"] = 5
 	r.MinInstances["C19.R5"] = 4
+	r.MinInstances["C19.R6"] = 1
 	c19R1(p, r)
 	c19R2(p, r)
 	c19R3(p, r)
 	c19R4(p, r)
 	c19R5(p, r)
 	c19More(p, r)
+	c19R6(p, r)
 }
 
 // ---- R1 -----------------------------------------------------------------------------------
@@ -424,6 +426,7 @@ func c19R3(p *Prog, r *Report) {
 		// stores into chanNames / chanNumbers in program order
 		var names []nameStore
 		var nums []nameStore
+		prefixLoop := false // the two streams of a pair are written by one store in a loop over the two prefixes
 		Instrs(lp, func(in ssa.Instruction) {
 			st, ok := in.(*ssa.Store)
 			if !ok {
@@ -445,6 +448,19 @@ func c19R3(p *Prog, r *Report) {
 					if len(ops) == 1 {
 						num = ops[0]
 					}
+					// "%s%d" with the prefix taken from a list of constants walked by a loop around
+					// the store: as many name stores as the list has prefixes
+					if len(ops) == 2 && strings.HasPrefix(format, "%s") {
+						if vals, _ := unrollArrayLoop(call, ops[0]); len(vals) >= 2 {
+							for _, pv := range vals {
+								if ps, ok := constString(pv); ok {
+									prefixLoop = true
+									names = append(names, nameStore{ps + format[2:], ops[1], ia.Index, in})
+								}
+							}
+							return
+						}
+					}
 					names = append(names, nameStore{format, num, ia.Index, in})
 				} else {
 					names = append(names, nameStore{"", nil, ia.Index, in})
@@ -455,35 +471,86 @@ func c19R3(p *Prog, r *Report) {
 		})
 		okPair := len(names) == 2 && len(nums) == 2
 		msg := fmt.Sprintf("expected two name stores and two number stores per pair, found %d and %d", len(names), len(nums))
-		if okPair {
+		if prefixLoop && len(names) == 2 && len(nums) == 1 {
+			// one store of each kind per pass of the prefix loop
+			okPair = true
+			pc := NewPolyCtx(lp)
 			switch {
-			case names[0].format == names[1].format || names[0].format == "" || names[1].format == "":
+			case names[0].format == names[1].format:
 				okPair, msg = false, "the two streams of a pair get the same name pattern: they share status entries and output file names"
-			case names[0].num == nil || names[0].num != names[1].num || nums[0].num != names[0].num || nums[1].num != names[0].num:
+			case names[0].num == nil || nums[0].num != names[0].num:
 				okPair, msg = false, "the two streams of a pair are not named/numbered from one and the same channel number value"
-			case names[0].idx == names[1].idx || nums[0].idx != names[0].idx || nums[1].idx != names[1].idx:
-				okPair, msg = false, "names and numbers of a pair are not stored at the two consecutive indices of the pair"
+			case nums[0].idx != names[0].idx:
+				okPair, msg = false, "names and numbers of a pair are not stored at the same stream index"
 			}
-		}
-		r.Check(okPair, "C19.R3", "Lancero: error/feedback partners share one number and have distinct name prefixes", p.Pos(lp.Pos()), fmt.Sprintf("%q / %q with the same number", fmtOf(names, 0), fmtOf(names, 1)), msg)
-		// the number advances exactly once per pair: phi of cnum in the innermost loop with +1
-		if okPair {
-			num := names[0].num
-			adv := 0
-			for _, ref := range *num.Referrers() {
-				if bo, ok := ref.(*ssa.BinOp); ok && bo.Op == token.ADD && bo.X == num {
-					if k, ok := constInt(bo.Y); ok && k == 1 && bo.Block() == names[1].in.Block() {
-						adv++
+			r.Check(okPair, "C19.R3", "Lancero: error/feedback partners share one number and have distinct name prefixes", p.Pos(lp.Pos()), fmt.Sprintf("%q / %q with the same number", fmtOf(names, 0), fmtOf(names, 1)), msg)
+			if okPair {
+				// the number is fixed during the prefix loop and moves by one per row: it is defined
+				// outside the loop that walks the prefixes, as <first number> + row
+				num := names[0].num
+				inner := names[0].in.Block()
+				numIn, _ := num.(ssa.Instruction)
+				fixed := numIn == nil || !sameTightLoop(numIn.Block(), inner) || !sameTightLoop(inner, numIn.Block())
+				perRow := false
+				for sym, co := range pc.Of(num) {
+					if strings.HasPrefix(sym, "phi#") && co == 1 {
+						perRow = true
 					}
 				}
+				if ph, isPhi := num.(*ssa.Phi); isPhi {
+					for _, e := range ph.Edges {
+						if bo, ok := e.(*ssa.BinOp); ok && bo.Op == token.ADD && bo.X == ssa.Value(ph) {
+							if k, isC := constInt(bo.Y); isC && k == 1 {
+								perRow = true
+							}
+						}
+					}
+				}
+				r.Check(fixed && perRow, "C19.R3", "Lancero: the channel number advances once per pair", p.InstrPos(names[1].in), "fixed while the two prefixes are walked, one more per row", "the channel number is not one per row (it changes inside the loop over the two name prefixes, or does not move with the row)")
+				// the stream index advances by one per prefix
+				okIdx := false
+				if ph, isPhi := names[0].idx.(*ssa.Phi); isPhi {
+					for _, e := range ph.Edges {
+						if bo, ok := e.(*ssa.BinOp); ok && bo.Op == token.ADD && bo.X == ssa.Value(ph) && bo.Block() == inner {
+							if k, isC := constInt(bo.Y); isC && k == 1 {
+								okIdx = true
+							}
+						}
+					}
+				}
+				r.Check(okIdx, "C19.R3", "Lancero: the pair occupies consecutive stream indices", p.InstrPos(names[1].in), "index advances by one per prefix", "the two streams of a pair are not stored at index and index+1")
 			}
-			r.Check(adv == 1, "C19.R3", "Lancero: the channel number advances once per pair", p.InstrPos(names[1].in), "cnum++ after the pair", fmt.Sprintf("the channel number is advanced %d times per pair", adv))
-			// the index advances between the two stores and after
-			r.Check(stripAdd(names[1].idx) == names[0].idx || stripAdd(stripConv(names[1].idx)) == names[0].idx, "C19.R3", "Lancero: the pair occupies consecutive stream indices", p.InstrPos(names[1].in), "index, index+1", "the two streams of a pair are not stored at index and index+1")
+		} else {
+			if okPair {
+				switch {
+				case names[0].format == names[1].format || names[0].format == "" || names[1].format == "":
+					okPair, msg = false, "the two streams of a pair get the same name pattern: they share status entries and output file names"
+				case names[0].num == nil || names[0].num != names[1].num || nums[0].num != names[0].num || nums[1].num != names[0].num:
+					okPair, msg = false, "the two streams of a pair are not named/numbered from one and the same channel number value"
+				case names[0].idx == names[1].idx || nums[0].idx != names[0].idx || nums[1].idx != names[1].idx:
+					okPair, msg = false, "names and numbers of a pair are not stored at the two consecutive indices of the pair"
+				}
+			}
+			r.Check(okPair, "C19.R3", "Lancero: error/feedback partners share one number and have distinct name prefixes", p.Pos(lp.Pos()), fmt.Sprintf("%q / %q with the same number", fmtOf(names, 0), fmtOf(names, 1)), msg)
+			// the number advances exactly once per pair: phi of cnum in the innermost loop with +1
+			if okPair {
+				num := names[0].num
+				adv := 0
+				for _, ref := range *num.Referrers() {
+					if bo, ok := ref.(*ssa.BinOp); ok && bo.Op == token.ADD && bo.X == num {
+						if k, ok := constInt(bo.Y); ok && k == 1 && bo.Block() == names[1].in.Block() {
+							adv++
+						}
+					}
+				}
+				r.Check(adv == 1, "C19.R3", "Lancero: the channel number advances once per pair", p.InstrPos(names[1].in), "cnum++ after the pair", fmt.Sprintf("the channel number is advanced %d times per pair", adv))
+				// the index advances between the two stores and after
+				r.Check(stripAdd(names[1].idx) == names[0].idx || stripAdd(stripConv(names[1].idx)) == names[0].idx, "C19.R3", "Lancero: the pair occupies consecutive stream indices", p.InstrPos(names[1].in), "index, index+1", "the two streams of a pair are not stored at index and index+1")
+			}
 		}
 		// one group per column starting at the column's first number with nrows entries
 		okGrp := false
-		Instrs(lp, func(in ssa.Instruction) {
+		c12Hosts(lp, top)(func(in ssa.Instruction) {
 			call, ok := in.(*ssa.Call)
 			if !ok {
 				return
@@ -1010,7 +1077,49 @@ func c19More(p *Prog, r *Report) {
 				}
 			})
 			if numPhi == nil {
-				return // numbers are not phi-carried here (Abaco computes row + Firstchan)
+				// the rows are numbered by a helper from a first number it is handed (number =
+				// first + row): the value handed over must be the value recorded as Firstchan
+				var handed ssa.Value
+				var at ssa.Instruction
+				Instrs(fn, func(x ssa.Instruction) {
+					call, ok := x.(*ssa.Call)
+					if !ok || call.Call.StaticCallee() == nil || !isModuleFn(call.Call.StaticCallee()) || call.Call.StaticCallee().Blocks == nil {
+						return
+					}
+					h := call.Call.StaticCallee()
+					if len(h.Params) != len(call.Call.Args) {
+						return
+					}
+					hpc := NewPolyCtx(h)
+					for _, s2 := range StoresToElems(h, "chanNumbers") {
+						pv := hpc.Of(s2.Val)
+						for k, prm := range h.Params {
+							if !isIntLike(prm.Type()) {
+								continue
+							}
+							coef, rest, ok := pv.SplitLinear(hpc.rootName(prm))
+							if !ok {
+								continue
+							}
+							if c1, isC := coef.IsConst(); !isC || c1 != 1 {
+								continue
+							}
+							// the rest is the row counter alone
+							syms := rest.Symbols()
+							if len(syms) == 1 && strings.HasPrefix(syms[0], "phi#") && len(rest) == 1 {
+								handed, at = call.Call.Args[k], call
+							}
+						}
+					}
+				})
+				if handed == nil {
+					return // numbers are not phi-carried here (Abaco computes row + Firstchan)
+				}
+				r.Fn(FuncName(fn))
+				same := stripConv(handed) == stripConv(st.Val)
+				r.Check(same, "C19.R3", FuncName(fn)+": a group's first channel is the number of its first row", p.InstrPos(st), "the value stored as Firstchan is the first number handed to the row-numbering helper",
+					"the group is recorded with a first channel that is not the number its first row receives (the numbering helper called at "+p.InstrPos(at)+" is handed another value - the number after the column separation was applied): the groups reported to clients and written to channels.json list numbers that are not in use and miss numbers that are")
+				return
 			}
 			r.Fn(FuncName(fn))
 			var entry ssa.Value
@@ -1158,4 +1267,116 @@ func StoresToElems(fn *ssa.Function, field string) []*ssa.Store {
 		}
 	})
 	return out
+}
+
+// ---- R6: a card is activated at most once ------------------------------------------------------
+
+// c19R6: two activations of one Lancero card give two sets of streams with identical numbers and
+// names.  (a) Anywhere in the module, slices.Compact / CompactFunc is a duplicate test only on a
+// sorted list (it removes adjacent repeats): its argument must have been sorted by a dominating
+// call.  No instance in the pinned tree; the kept seed C19-r3-2 is the positive example.
+// (b) The Lancero Configure step contains a recognisable "already listed?" test of the candidate
+// card against the cards accepted so far; when none of the known forms is found the question is
+// left undecided, not reported.
+func c19R6(p *Prog, r *Report) {
+	isSortCall := func(name string) bool {
+		switch name {
+		case "sort.Ints", "sort.Strings", "sort.Float64s", "sort.Sort", "sort.Stable", "sort.Slice", "sort.SliceStable", "slices.Sort", "slices.SortFunc", "slices.SortStableFunc":
+			return true
+		}
+		return false
+	}
+	unbox := func(a ssa.Value) ssa.Value {
+		for {
+			switch x := a.(type) {
+			case *ssa.MakeInterface:
+				a = x.X
+				continue
+			case *ssa.ChangeType:
+				a = x.X
+				continue
+			}
+			return a
+		}
+	}
+	n := 0
+	compactSeen := map[*ssa.Function]bool{}
+	for _, fn := range p.LibFuncs() {
+		Instrs(fn, func(in ssa.Instruction) {
+			cc := CallOf(in)
+			if cc == nil || cc.StaticCallee() == nil || len(cc.Args) == 0 {
+				return
+			}
+			name := CalleeName(cc)
+			if i := strings.Index(name, "["); i > 0 {
+				name = name[:i]
+			}
+			if name != "slices.Compact" && name != "slices.CompactFunc" {
+				return
+			}
+			compactSeen[fn] = true
+			n++
+			arg := cc.Args[0]
+			sorted := false
+			Instrs(fn, func(x ssa.Instruction) {
+				c2 := CallOf(x)
+				if c2 == nil || c2.StaticCallee() == nil || len(c2.Args) == 0 {
+					return
+				}
+				nm := CalleeName(c2)
+				if i := strings.Index(nm, "["); i > 0 {
+					nm = nm[:i]
+				}
+				if isSortCall(nm) && unbox(c2.Args[0]) == arg && InstrDominates(x, in) {
+					sorted = true
+				}
+			})
+			r.Fn(FuncName(fn))
+			r.Check(sorted, "C19.R6", fmt.Sprintf("duplicate test by Compact in %s #%d is over a sorted list", FuncName(fn), n), p.InstrPos(in), "sorted by a dominating call",
+				"slices.Compact removes only adjacent repeats and its argument is not sorted first: a value repeated with another one in between is not noticed, so a card (or channel) listed twice that way is accepted and its streams get identical numbers, names and file names")
+		})
+	}
+	// (b) the Lancero configuration step
+	cfg := p.Func("", "LanceroSource", "Configure")
+	if cfg == nil {
+		r.Unk("C19.R6", "(*LanceroSource).Configure", "-", "name-keyed anchor not found")
+		return
+	}
+	r.Fn(FuncName(cfg))
+	form := ""
+	for _, d := range InstrsDeepList(cfg, 1) {
+		switch x := d.(type) {
+		case *ssa.BinOp:
+			// element of a list of devices compared with a device
+			if x.Op == token.EQL && typeName(x.X.Type()) == "LanceroDevice" && typeName(x.Y.Type()) == "LanceroDevice" {
+				if _, isNil := x.Y.(*ssa.Const); !isNil {
+					if _, isNil := x.X.(*ssa.Const); !isNil {
+						form = "element-by-element comparison at " + p.InstrPos(x)
+					}
+				}
+			}
+		case *ssa.Lookup:
+			if _, isMap := x.X.Type().Underlying().(*types.Map); isMap && x.CommaOk || typeName(x.Type()) == "bool" {
+				if mm, ok := x.X.(*ssa.MakeMap); ok && mm.Parent() == cfg {
+					form = "seen-set lookup at " + p.InstrPos(x)
+				}
+			}
+		case *ssa.Call:
+			nm := CalleeName(&x.Call)
+			if i := strings.Index(nm, "["); i > 0 {
+				nm = nm[:i]
+			}
+			if nm == "slices.Contains" || nm == "slices.Index" || nm == "slices.ContainsFunc" {
+				form = nm + " at " + p.InstrPos(x)
+			}
+		}
+	}
+	if form == "" && compactSeen[cfg] {
+		form = "sorted-list compaction (checked above)"
+	}
+	if form != "" {
+		r.OK("C19.R6", "(*LanceroSource).Configure tests whether a card is already listed", p.Pos(cfg.Pos()), form)
+	} else {
+		r.Unk("C19.R6", "(*LanceroSource).Configure tests whether a card is already listed", p.Pos(cfg.Pos()), "none of the known forms of a duplicate test (element comparison, seen-set, slices.Contains, sort+Compact) found in the configuration step: not decided whether a card listed twice is refused")
+	}
 }
